@@ -215,6 +215,12 @@ pub fn c08(run: &mut Run) -> Stats {
             shape_jobs.push((name.to_string(), sz));
         }
     }
+    // shapes whose verdict depends on counters that wrap at 2^16 or leak towards the nesting limit
+    for name in ["sibling_nested_negclasses", "nested_negclass_list", "dup_named_same_path_far", "dup_named_alternatives_far", "dup_named_conflict_far"] {
+        for sz in [1usize, 2, 100, 254, 255, 256, 257, 1000, 65_533, 65_534, 65_535, 65_536, 65_537] {
+            shape_jobs.push((name.to_string(), sz));
+        }
+    }
     for name in ["nest_capture", "nest_noncap", "nest_lookahead", "nest_lookbehind", "nest_modifier", "nest_class", "nest_quant"] {
         for sz in [1usize, 2, 10, 100, 200] {
             shape_jobs.push((name.to_string(), sz));
